@@ -47,6 +47,13 @@ the driver, or the broker's own one with `via_inmemory`):
     (broker.wait_all() at the end).  The broker hands over bare bytes: there is nothing to acknowledge.
 The property statements do not depend on the path: the case's `propagate` / `validate` / `ack` are what was ASKED for.
 
+Strings of unusual but legal shapes ON THE WIRE (`tids` of a message plan = the task id the message carries, verbatim;
+`slabels` = extra string labels, keys and values verbatim; a raw value of the `str` annotation kind; `name` of a task
+spec = the name the task is registered under and the messages for it carry; `wire` of a message plan = {"via": "raw",
+...}: the bytes are written by hand - json.dumps of a plain dict, key order / separators / ensure_ascii as the plan
+says - as a producer that is not this Python client would, never passing through TaskiqMessage on the sending side).
+Every echo carries the task name too.
+
 The execution an event belongs to is carried by a ContextVar set by the harness task that calls
 `Receiver.callback` (propagated into the worker thread of sync task functions by the loop subclass) - it does
 not go through anything the properties are about."""
@@ -54,6 +61,8 @@ import asyncio
 import contextlib
 import contextvars
 import dataclasses
+import json
+import random
 import sys
 import types
 from concurrent.futures import ThreadPoolExecutor
@@ -151,7 +160,7 @@ class IntList(list):
 
 # annotation kinds of the validated parameter `pv` (process-wide objects, as the types of a worker are)
 ANNS = {"jl": pydantic.Json[List[int]], "jd": pydantic.Json[Dict[str, int]], "csv": Tags, "list": List[int],
-        "set": Set[int], "dict": Dict[str, int], "dc": Box, "pdc": PBox, "ilist": IntList}
+        "set": Set[int], "dict": Dict[str, int], "dc": Box, "pdc": PBox, "ilist": IntList, "str": str}
 NOPV = object()
 
 
@@ -191,6 +200,11 @@ def unmark_val(obj, e):
     elif isinstance(obj, (Box, PBox)):
         if -(e + 1) in obj.items:
             obj.items.remove(-(e + 1))
+
+
+def tname(case, t):
+    """the name task t is registered under (and that the messages for it carry)"""
+    return case["tasks"][t].get("name", "task_%d" % t)
 
 
 def val_slot(message, plan):
@@ -346,7 +360,8 @@ def jsonable(v):
 
 def snapshot(m):
     """the whole message a reader holds, as it is at this moment"""
-    return {"tid": m.task_id, "args": jsonable(m.args), "kwargs": jsonable(m.kwargs), "labels": jsonable(m.labels)}
+    return {"tid": m.task_id, "name": m.task_name, "args": jsonable(m.args), "kwargs": jsonable(m.kwargs),
+            "labels": jsonable(m.labels)}
 
 
 def echo(ctx):
@@ -674,12 +689,12 @@ def _run_case(case):
         exec(task_src(t, spec), ns)
         # labels a task is declared with (normally merged into the message by the kicker; a message built by another
         # client - as here - carries only what it was sent with)
-        broker.register_task(ns["task_%d" % t], task_name="task_%d" % t, **(spec.get("labels") or {}))
+        broker.register_task(ns["task_%d" % t], task_name=tname(case, t), **(spec.get("labels") or {}))
     if case.get("overrides"):
         # resolved per execution: async_ctx builds a new DependencyGraph(target, replaced_deps) for every message
         broker.dependency_overrides = {ns["node_%d" % a]: ns["node_%d" % b] for a, b in case["overrides"]}
     ack = case.get("ack", "when_saved")
-    tasks_decl = [broker.find_task("task_%d" % t) for t in range(len(case["tasks"]))]
+    tasks_decl = [broker.find_task(tname(case, t)) for t in range(len(case["tasks"]))]
     if kind == "inmemory":
         receiver = None                     # whatever receiver the broker holds when a delivery is kicked
     elif kind in ("cli", "api"):
@@ -722,6 +737,8 @@ def _run_case(case):
         labels = {} if m.get("nolabels") else {"who": c}
         if m.get("timeout") is not None and not m.get("nolabels"):
             labels["timeout"] = m["timeout"] / 1_000_000
+        # extra string labels, keys and values exactly as the plan has them
+        labels.update(m.get("slabels") or {})
         args, kwargs = [c], ({"kw": c} if m.get("kw", True) else {})
         if m.get("raw") is not None and case["tasks"][m["task"]].get("val"):
             # the raw value of the validated parameter, exactly as generated (equal raw values on several messages
@@ -730,11 +747,27 @@ def _run_case(case):
                 args.append(m["raw"])
             else:
                 kwargs["pv"] = m["raw"]
-        msg = TaskiqMessage(task_id="m%d" % m.get("tid", i), task_name="task_%d" % m["task"], labels=labels, args=args,
-                            kwargs=kwargs)
-        data = broker.formatter.dumps(msg).message
+        # the task id the message carries: verbatim when the plan names one
+        fields = dict(task_id=m["tids"] if "tids" in m else "m%d" % m.get("tid", i), task_name=tname(case, m["task"]),
+                      labels=labels, labels_types=None, args=args, kwargs=kwargs)
+        w = m.get("wire") or {}
+        if w.get("via") == "raw":
+            # written by hand, as a producer that is not this client would: nothing of taskiq touches the strings
+            # before the receiver parses the bytes
+            d = dict(fields)
+            if w.get("lt") == "omit":
+                del d["labels_types"]
+            elif w.get("lt") == "dict":
+                d["labels_types"] = {}
+            keys = list(d)
+            random.Random(w.get("order", 0)).shuffle(keys)
+            d = {k: d[k] for k in keys}
+            data = json.dumps(d, ensure_ascii=bool(w.get("ascii", True)),
+                              separators=(",", ":") if w.get("compact") else (", ", ": ")).encode("utf-8")
+        else:
+            data = broker.formatter.dumps(TaskiqMessage(**fields)).message
         datas.append(sent.setdefault(data, data))
-        calls.append(msg)
+        calls.append(types.SimpleNamespace(**fields))
 
     async def send(i, m):
         """delivery i handed to the InMemoryBroker: it spawns (or, await_inplace, awaits) the callback of the receiver
